@@ -332,6 +332,7 @@ fn directed(ctx: &mut Ctx, which: usize) -> Option<Scn> {
             let defs = vec![(1, simple_room(&[(1, 0, true, true), (2, 0, true, false)])), (2, simple_room(&[(2, 0, true, false)]))];
             let p = ctx.node(100, Some(1), Some(1), gj(1, "p"), d + 5, 1, Tamper::No);
             let q = ctx.node(101, Some(2), Some(1), gj(1, "q"), d + 5, 1, Tamper::No);
+            let z = ctx.node(102, Some(1), Some(1), gj(1, "z"), d + 5, 3, Tamper::No);      // held row of a key without any right
             let older = ctx.node(100, Some(1), Some(1), gj(1, "older"), d + 4, 1, Tamper::No);
             let same = p.clone();
             let sib1 = ctx.node(100, Some(1), Some(1), gj(1, "sib1"), d + 5, 1, Tamper::No);
@@ -342,8 +343,8 @@ fn directed(ctx: &mut Ctx, which: usize) -> Option<Scn> {
             let t_b = ctx.ndel(1, 100, Some(1), d + 5, d + 10, 1, Tamper::No);
             let t_other = ctx.ndel(2, 101, Some(1), d + 5, d + 9, 2, Tamper::No); // row 101 is in room 2, author 1: needs all-rows
             let t_absent = ctx.ndel(2, 150, Some(1), d + 5, d + 9, 2, Tamper::No); // no such row: own-rows right suffices
-            Scn { defs, pre_nodes: vec![p, q], pre_edges: vec![], steps: vec![
-                Step::Nodes(1, vec![older]), Step::Nodes(1, vec![same]), Step::Nodes(1, vec![sib1]), Step::Nodes(1, vec![sib2]),
+            Scn { defs, pre_nodes: vec![p, q, z.clone()], pre_edges: vec![], steps: vec![
+                Step::Nodes(1, vec![older]), Step::Nodes(1, vec![same, z]), Step::Nodes(1, vec![sib1]), Step::Nodes(1, vec![sib2]),
                 Step::NDels(vec![t_unknown_ent, t_unknown_room, t_other, t_absent]), Step::NDels(vec![t_b, t_a])], what: "lww filter and tombstone corner cases".into() }
         }
         _ => return None,
